@@ -64,4 +64,4 @@ namespace datasketches { struct verif_xxhash_stub { static uint64_t hash(const v
 #define MurmurHash3_x64_128 verif_murmur_stub
 #define XXHash64 verif_xxhash_stub
 #endif
-#define W extern "C" __attribute__((noinline))
+#define WRAP extern "C" __attribute__((noinline))
